@@ -35,6 +35,7 @@ outp = sys.argv[2] if len(sys.argv) > 2 else "GenMap.lean"
 FNS = [
     ("shift", "tea-map/src/lib.rs", "MapBasic", {"n": "Int", "value": "Elem"}),
     ("vclip", "tea-map/src/valid_iter.rs", "MapValidBasic", {"lower": "Elem", "upper": "Elem"}),
+    ("fill_mask", "tea-map/src/valid_iter.rs", "MapValidBasic", {"mask_func": "Mask", "value": "Elem"}),
     ("fill", "tea-map/src/valid_iter.rs", "MapValidBasic", {"value": "Elem"}),
     ("ffill_mask", "tea-map/src/valid_iter.rs", "MapValidBasic", {"mask_func": "Mask", "value": ("opt", "Elem")}),
     ("ffill", "tea-map/src/valid_iter.rs", "MapValidBasic", {"value": ("opt", "Elem")}),
@@ -43,7 +44,18 @@ FNS = [
     ("vshift", "tea-map/src/valid_iter.rs", "MapValidBasic", {"n": "Int", "value": ("opt", "Elem")}),
     ("vdiff", "tea-map/src/vec_map.rs", "MapValidVec", {"n": "Int", "value": ("opt", "Elem")}),
     ("vpct_change", "tea-map/src/vec_map.rs", "MapValidVec", {"n": "Int"}),
+    ("abs", "tea-map/src/lib.rs", "MapBasic", {}),
+    ("vabs", "tea-map/src/valid_iter.rs", "MapValidBasic", {}),
+    ("drop_none", "tea-map/src/valid_iter.rs", "MapValidBasic", {}),
+    ("vsorted_unique", "tea-map/src/valid_iter.rs", "MapValidBasic", {}),
+    ("vsorted_unique_idx", "tea-map/src/valid_iter.rs", "MapValidBasic", {"keep": "Keep"}),
 ]
+
+# `let mut x = None;` / `let mut x = if let … { … } else { None };` without annotation: the option type
+LET_TYPES = {"vsorted_unique_idx": {"last_value": "Elem"}}
+
+# item type of the closure of a `filter_map` per function
+FILTER_MAP_ITEM = {"vsorted_unique": ("opt", "Elem"), "vsorted_unique_idx": "OptNat"}
 
 
 _ann = C.ann_type
@@ -75,13 +87,45 @@ def ty_lean(t):
         return "Int"
     if t == "Mask":
         return "Option Rat → Bool"
+    if t == "Keep":
+        return "Bool"
     if isinstance(t, tuple) and t[0] == "opt":
         return "Option (" + ty_lean(t[1]) + ")"
     return C.ty_lean(t)
 
 
+def rewrite_replace(node):
+    """`X.replace(E).map(|_| R)` as the tail of a block  ->  `let old__ = X; X = Some(E); old__.map(|_| R)`
+    (`Option::replace` stores `Some(E)` and returns the previous value)"""
+    if isinstance(node, list):
+        return [rewrite_replace(x) for x in node]
+    if not isinstance(node, tuple):
+        return node
+    node = tuple(rewrite_replace(x) for x in node)
+    if node and node[0] == "block" and node[2] is not None:
+        t = node[2]
+        if (t[0] == "mcall" and t[2] == "map" and t[1][0] == "mcall" and t[1][2] == "replace" and len(t[1][3]) == 1
+                and t[1][1][0] == "path"):
+            x = t[1][1]
+            stmts = list(node[1]) + [("let", ("pvar", "old__"), False, x, ""),
+                                     ("assign", "=", x, ("call", "Some", [t[1][3][0]]))]
+            return ("block", stmts, ("mcall", ("path", "old__"), "map", t[3]))
+    return node
+
+
 class MapEmit(C.Emit):
     def stmts(self, ss, tail, env, outs, expect=None):
+        # `let first = iter.next();` on a list-valued iterator variable: its head, and the variable is its tail
+        ss1 = []
+        for st in ss:
+            if (st[0] == "let" and st[3] is not None and st[3][0] == "mcall" and st[3][2] == "next" and not st[3][3]
+                    and st[3][1][0] == "path"):
+                it = st[3][1]
+                ss1.append(("let", st[1], st[2], ("mcall", it, "__head", []), st[4] if len(st) > 4 else ""))
+                ss1.append(("assign", "=", it, ("mcall", it, "__tail", [])))
+            else:
+                ss1.append(st)
+        ss = ss1
         # bind state-mutating closures (`let f = move |v: T| { … last_valid = … }`) symbolically
         ss2 = []
         ss = [(("let", st[1], st[2], ("call", "__none_optelem", []), st[4])
@@ -145,6 +189,20 @@ class MapEmit(C.Emit):
             if outs:
                 raise Unsupported("guarded match that assigns")
             return self.matchg(e, env, expect)
+        if k == "match" and e[1][0] == "path" and env.get(e[1][1]) == "Keep":
+            if outs:
+                raise Unsupported("match on keep that assigns")
+            arms = {}
+            for pats, body in e[2]:
+                if len(pats) != 1 or pats[0] not in ("Keep::First", "Keep::Last"):
+                    raise Unsupported("Keep pattern")
+                arms[pats[0]] = self.effect(body, dict(env), [], expect)
+            if set(arms) != {"Keep::First", "Keep::Last"}:
+                raise Unsupported("non-exhaustive match on Keep")
+            (a, ta), (b, tb) = arms["Keep::First"], arms["Keep::Last"]
+            if ta != tb:
+                raise Unsupported("Keep arms of different types")
+            return f"if {C.lname(e[1][1])} then\n{C.indent(a)}\nelse\n{C.indent(b)}", ta
         return super().effect(e, env, outs, expect)
 
     def matchg(self, e, env, expect):
@@ -208,6 +266,9 @@ class MapEmit(C.Emit):
             return "(\n" + C.indent(t) + ")", ty
         if k == "path" and e[1] == "T::is_none":
             return "Option.isNone", "Mask"
+        if k == "match" and e[1][0] == "path" and env.get(e[1][1]) == "Keep":
+            t, ty = self.effect(e, env, [], expect)
+            return "(\n" + C.indent(t) + ")", ty
         if k == "closure" and env.get("__stateful_ok__"):
             raise Unsupported("closure value")
         if k == "call":
@@ -221,6 +282,11 @@ class MapEmit(C.Emit):
                 return "none", ("opt", "Elem")
             if re.fullmatch(r"(\w+::)*none", name) and not args:
                 return "none", "Elem"
+            if re.fullmatch(r"(\w+::)*from_inner", name) and len(args) == 1:
+                a, ta = self.ex0(args[0], env)
+                if ta != "Rat":
+                    raise Unsupported("from_inner argument")
+                return f"(some {a})", "Elem"
             if name == "Some" and len(args) == 1:
                 a, ta = self.ex0(args[0], env)
                 if ta == "Elem":
@@ -229,6 +295,11 @@ class MapEmit(C.Emit):
                 return self.ex0(args[0], env, expect)
             if name == "TrustIter::new" and len(args) == 2:
                 return self.ex0(args[0], env, expect)
+            if name in ("std::iter::once", "once") and len(args) == 1:
+                v, tv = self.ex(args[0], env, "Elem")
+                if tv not in ("Elem", "OptF"):
+                    raise Unsupported(f"once({tv})")
+                return f"[{v}]", ("list", "Elem")
             if name in ("std::iter::repeat_n", "repeat_n") and len(args) == 2:
                 v, tv = self.ex0(args[0], env)
                 n, tn = self.ex0(args[1], env)
@@ -241,6 +312,11 @@ class MapEmit(C.Emit):
             if ta == "Int" and e[3][0] == "num":
                 lop = {"<": "<", ">": ">", "<=": "≤", ">=": "≥", "==": "=", "!=": "≠"}[e[1]]
                 return f"decide ({a} {lop} ({b} : Int))", "Bool"
+        if k == "bin" and e[1] in ("==", "!="):
+            a, ta = self.ex0(e[2], env)
+            b, tb = self.ex0(e[3], env)
+            if ta in ("Elem", "OptF") and tb in ("Elem", "OptF"):
+                return f"decide ({a} {'=' if e[1] == '==' else '≠'} {b})", "Bool"
         if k == "bin" and e[1] in ("+", "-", "*", "/"):
             a, ta = self.ex0(e[2], env)
             b, tb = self.ex0(e[3], env)
@@ -253,12 +329,6 @@ class MapEmit(C.Emit):
                     return "xs", ("list", "Elem")
                 if name == "len" and not args:
                     return "xs.length", "Nat"
-                if name == "fill_mask" and len(args) == 2 and args[0] == ("path", "T::is_none"):
-                    v, tv = self.ex0(args[1], env)
-                    if tv != "Elem":
-                        raise Unsupported("fill_mask value")
-                    # fill_mask(mask, value) = self.map(move |v| if mask(&v) { value.clone() } else { v })
-                    return f"(xs.map fun v => if v.isNone then {v} else v)", ("list", "Elem")
             if e[1] == ("path", "self") and name in getattr(self, "siblings", {}):
                 lean_name, ptys = self.siblings[name]
                 if len(args) != len(ptys):
@@ -275,6 +345,12 @@ class MapEmit(C.Emit):
                 return r, tr
             if name == "rev" and not args and is_list(tr):
                 return f"{r}.reverse", tr
+            if name == "__head" and is_list(tr):
+                return f"{r}.head?", ("opt", tr[1])
+            if name == "__tail" and is_list(tr):
+                return f"{r}.tail", tr
+            if name == "enumerate" and not args and is_list(tr):
+                return f"(enumerate {r})", ("list", ("tuple", ("Nat", tr[1])))
             if name == "map" and len(args) == 1 and args[0][0] == "path" and isinstance(env.get(args[0][1]), tuple) \
                     and env[args[0][1]][0] == "stclosure" and is_list(tr):
                 # `.map(f)` with `f` a closure that mutates a captured cell: a state-passing map
@@ -291,6 +367,28 @@ class MapEmit(C.Emit):
                     raise Unsupported(f"stateful map closure result {tb}")
                 st = C.tuple_txt([C.lname(o) for o in state])
                 return (f"(mapSt (fun {st} {ptxt} =>\n{C.indent(b)})\n  {st} {r})"), ("list", "Elem")
+            if name == "filter_map" and len(args) == 1 and args[0][0] == "closure" and is_list(tr):
+                # `.filter_map(move |p| …)`: the closure may mutate captured cells (state-passing)
+                cl = args[0]
+                if len(cl[1]) != 1:
+                    raise Unsupported("filter_map closure arity")
+                bound = set(n for q in cl[1] for n in C.pat_names(q, []))
+                state = [o for o in C.assigned_outer(cl[2], frozenset(bound))
+                         if o in env and not (isinstance(env[o], tuple) and env[o][0] == "stclosure")]
+                env2 = dict(env)
+                ptxt = self.bind_pat(cl[1][0], tr[1], env2)
+                want = getattr(self, "filter_map_item", None)
+                b, tb = self.stmts(cl[2][1], cl[2][2], env2, state, want)
+                if tb == ("opt", "Elem"):
+                    item = "Elem"
+                elif tb == "OptNat":
+                    item = "Nat"
+                else:
+                    raise Unsupported(f"filter_map closure result {tb}")
+                if state:
+                    st = C.tuple_txt([C.lname(o) for o in state])
+                    return (f"(filterMapSt (fun {st} {ptxt} =>\n{C.indent(b)})\n  {st} {r})"), ("list", item)
+                return f"({r}.filterMap fun {ptxt} =>\n{C.indent(b)})", ("list", item)
             if name == "unwrap" and not args and tr == "Elem":
                 return f"({r}.getD 0)", "Rat"      # a panic on a null is not part of the generated semantics
             if name == "unsigned_abs" and not args and tr == "Int":
@@ -336,6 +434,11 @@ class MapEmit(C.Emit):
                 return f"({r}.map fun {ptxt} => {body})", ("list", "Elem")
             if name == "cast" and not args and tr == "Elem":
                 return r, "OptF"
+            if name in ("abs", "vabs") and not args and tr in ("Elem", "OptF"):
+                # `Number::abs` on the value (NaN.abs() is NaN) / `IsNone::vabs`: abs of the inner value
+                return f"({r}.map ratAbs)", tr
+            if name == "filter" and len(args) == 1 and args[0] == ("path", "T::not_none") and is_list(tr):
+                return f"({r}.filter Option.isSome)", tr
         return super().ex0(e, env, expect)
 
 
@@ -388,18 +491,20 @@ def translate(name, rel, trait, params):
     sig_params = [p for p in sig_params if p not in ("self",)]
     if [p for p in sig_params if p in params] != list(params) or any(p not in params for p in sig_params):
         raise Unsupported(f"parameters {sig_params}")
-    blk = C.P(C.tokenize(body_src)).block()
+    blk = rewrite_replace(C.P(C.tokenize(body_src)).block())
     em = MapEmit()
+    em.none_types = LET_TYPES.get(name, {})
     em.siblings = dict(SIBLINGS)
     em.allow_len = False
+    em.filter_map_item = FILTER_MAP_ITEM.get(name)
     env = dict(params)
     txt, ty = em.stmts(blk[1], blk[2], env, [], None)
-    if not is_list(ty) or ty[1] not in ("Elem", "OptF"):
+    if not is_list(ty) or ty[1] not in ("Elem", "OptF", "Nat"):
         raise Unsupported(f"result type {ty}")
     L = [f"namespace {name}"]
     ps = "".join(f" ({C.lname(p)} : {ty_lean(t)})" for p, t in params.items())
     L.append(f"/-- `{trait}::{name}` ({rel}), in source order, on the list of items the iterator yields -/")
-    L.append(f"def run (xs : List (Option Rat)){ps} : List (Option Rat) :=")
+    L.append(f"def run (xs : List (Option Rat)){ps} : {ty_lean(ty)} :=")
     L.append(C.indent(txt, 2))
     L.append("def parsed : Bool := true")
     L.append(f"end {name}")
